@@ -1934,6 +1934,9 @@ func (s *ImmuStore) performPrecommit(tx *Tx, entries []*EntrySpec, ts int64, blT
 			return err
 		}
 		tx.header.BlRoot = blRoot
+	} else {
+		// the tx holder comes from a pool, it may carry the root of the transaction it was used for before
+		tx.header.BlRoot = [sha256.Size]byte{}
 	}
 
 	if tx.header.ID <= tx.header.BlTxID {
